@@ -563,6 +563,29 @@ def check_c02(tier, seed, res):
             res.violation("panic:decode", line, i, m, "request decoding panicked inside a stream")
         elif i != m:
             res.mismatch(line, i, m)
+    # K1: nesting depth.  The model's reader has no stack; Go's has 1 GB.  Depths the
+    # generators reach (<= 10^4) are in the differential above; the known-finding
+    # witness (3*10^6 nested indefinite-length headers, 6 MB) is replayed in a
+    # process of its own, with the address space capped so a regression cannot
+    # take the machine down.
+    for depth, expect_ok in ((10000, True), (3000000, False)):
+        try:
+            p = subprocess.run("ulimit -v 8000000; exec %s k1 %d" % (VH, depth), shell=True, stdout=subprocess.PIPE, stderr=subprocess.PIPE, text=True, timeout=300, env=GOENV)
+            out, err, rc = p.stdout, p.stderr, p.returncode
+        except subprocess.TimeoutExpired:
+            out, err, rc = "", "timeout", -1
+        res.evaluations += 1
+        case = "k1 depth-%d %d" % (depth, depth)
+        if rc == 0 and "returned" in out:
+            res.nontrivial.add(case)
+            res.sample(case + "  =>  " + out.strip())
+        elif "stack overflow" in err or "goroutine stack exceeds" in err:
+            res.nontrivial.add(case)
+            res.violation("frame=nesting-depth>2.5e6" if not expect_ok else "frame=nesting-depth<=1e4", case,
+                          "process died: " + " / ".join(l for l in err.splitlines()[:3]), "ordinary error return",
+                          "a frame of %d nested constructed headers (30 80 ...) overflows the goroutine stack in go-asn1-ber's recursive reader: fatal error, the whole process dies, no recover possible" % depth)
+        else:
+            res.mismatch(case, "rc=%d %s %s" % (rc, out[-200:], err[-300:]), "-")
     res.extra["outcome_classes"] = classes
     res.extra["oracle_dependent_frames_compared_on_panic_bit_only"] = oracle_skipped
     res.extra["canonical_requests"] = len(wires)
@@ -1283,10 +1306,33 @@ LIFE_RULES = {
 }
 
 
+def k1_live(res):
+    """K1 against a running server with a bystander connection (process of its own, address space capped)."""
+    try:
+        p = subprocess.run("ulimit -v 8000000; exec %s k1 3000000 live" % VH, shell=True, stdout=subprocess.PIPE, stderr=subprocess.PIPE, text=True, timeout=300, env=GOENV)
+        out, err, rc = p.stdout, p.stderr, p.returncode
+    except subprocess.TimeoutExpired:
+        out, err, rc = "", "timeout", -1
+    res.evaluations += 1
+    case = "k1 live-3000000 3000000 live"
+    res.nontrivial.add(case)
+    if rc == 0 and "bystander_served_after=true" in out:
+        res.sample(case + "  =>  " + out.strip())
+    elif "stack overflow" in err or "goroutine stack exceeds" in err:
+        res.violation("frame=nesting-depth>2.5e6", case, "process died: " + " / ".join(err.splitlines()[:3]), "only the offending connection ends",
+                      "one client sending 3*10^6 nested constructed headers kills the server process (fatal stack overflow in go-asn1-ber's reader), bystander connections included")
+    elif rc == 0 and "bystander_served_after=false" in out:
+        res.violation("bystander-unserved-after-deep-frame", case, out.strip(), "bystander served", "after a deeply nested frame on another connection the bystander is no longer served")
+    else:
+        res.mismatch(case, "rc=%d %s %s" % (rc, out[-200:], err[-300:]), "-")
+
+
 def make_life_check(pid, gens):
     def fn(tier, seed, res):
         n = 6 if tier == "quick" else 60
         life_check(pid, gens, n, tier, seed, res)
+        if pid == "C07":
+            k1_live(res)
         res.rule = LIFE_RULES[pid] + "; every scenario is predicted by the LTS (Sys.v, canonical scheduler to quiescence) and forced on a real server in a worker process; after each operation the observed snapshot (ready, Run/Stop returns, port, per connection: id, handlers started/ended, closed, OnClose count) must become and stay the predicted one; one evaluation = one scenario"
     CHECKS[pid] = fn
 
